@@ -11,14 +11,14 @@ import (
 
 // Plan is written by checks/C17.py (from TLC's output) to $VERIF_PLAN.
 type Plan struct {
-	Pool      *PoolPlan    `json:"pool,omitempty"`      // atomic paths through the state graph of PoolAtomic.cfg
-	Pool2     *PoolPlan    `json:"pool2,omitempty"`     // ... of PoolAtomicWake.cfg (two callers: wake-ups, cancellation)
-	Witness   []Scenario   `json:"witness,omitempty"`   // atomic counterexamples of model variants WITHOUT a fix
-	Fine      []Scenario   `json:"fine,omitempty"`      // fine-grained counterexamples (deadlock) of such variants
-	Manager   *ManagerPlan `json:"manager,omitempty"`   // paths through the state graph of PeerManager
-	MWitness  []MScenario  `json:"mwitness,omitempty"`  // manager counterexamples of model variants without a fix
-	MTrace    *MTracePlan  `json:"mtrace,omitempty"`    // random walks on the real Manager recorded for trace validation
-	Stress    *StressPlan  `json:"stress,omitempty"`    // free-running concurrent runs recorded for trace validation
+	Pool      *PoolPlan    `json:"pool,omitempty"`     // atomic paths through the state graph of PoolAtomic.cfg
+	Pool2     *PoolPlan    `json:"pool2,omitempty"`    // ... of PoolAtomicWake.cfg (two callers: wake-ups, cancellation)
+	Witness   []Scenario   `json:"witness,omitempty"`  // atomic counterexamples of model variants WITHOUT a fix
+	Fine      []Scenario   `json:"fine,omitempty"`     // fine-grained counterexamples (deadlock) of such variants
+	Manager   *ManagerPlan `json:"manager,omitempty"`  // paths through the state graph of PeerManager
+	MWitness  []MScenario  `json:"mwitness,omitempty"` // manager counterexamples of model variants without a fix
+	MTrace    *MTracePlan  `json:"mtrace,omitempty"`   // random walks on the real Manager recorded for trace validation
+	Stress    *StressPlan  `json:"stress,omitempty"`   // free-running concurrent runs recorded for trace validation
 	MaxReport int          `json:"max_report"`
 }
 
@@ -82,7 +82,9 @@ func runPoolPaths(rep *vh.Report, pp *PoolPlan) {
 		}
 		rep.Count("pool_paths_replayed", 1)
 		rep.Count("pool_steps_replayed", int64(res.steps))
-		rep.Count("traces_validated_against_impl", 1)
+		if res.mismatch == "" {
+			rep.Count("traces_validated_against_impl", 1)
+		}
 		if res.mismatch != "" {
 			// The code does not behave like the model. Make the difference observable through the API
 			// (monitors); if the property is not affected this is conformance drift, not a violation.
